@@ -159,7 +159,8 @@ func c07Gen(g *simcore.Tape, thorough bool) *c07Scenario {
 			}
 			rq.Query = simcore.Pick(g, c07Queries)
 			rq.Headers = append([]h2Header{{"Accept-Encoding", simcore.Pick(g, []string{"identity", "gzip", "br, gzip"})}}, c07GenHeaders(g, c07HdrNames, 6)...)
-			if rq.Method != "GET" && rq.Method != "HEAD" && rq.Method != "OPTIONS" && rq.Method != "DELETE" {
+			// bodies are usual on POST/PUT/PATCH and legal, if unusual, on every other method but HEAD
+			if (rq.Method != "GET" && rq.Method != "HEAD" && rq.Method != "OPTIONS" && rq.Method != "DELETE") || (rq.Method != "HEAD" && g.Chance(15)) {
 				switch g.Intn(4) {
 				case 0:
 				case 1:
@@ -328,12 +329,33 @@ func c07Check(r *simcore.Run, e *h2Env, sc *c07Scenario, rq *h2Req) {
 				r.Fail("request", "body-not-prefix", "%s: upstream received %d body bytes that are not a prefix of the %d sent", what, len(s.Body), len(rq.Body))
 			}
 		}
-		if res.Err == nil && res.BodyErr == nil && res.Status == rq.Resp.Status && rq.Resp.ResetAt == 0 && !h2NoBody(rq.Method, res.Status) {
+		// (also when the upstream connection was cut after its complete response head: a cut-off response
+		// must not reach the client looking complete; a cut inside the head can only yield fabio's own error answer)
+		headCut := false
+		if n := rq.Resp.ResetAt; n != 0 {
+			raw := h2RenderResponse(rq.Method, &rq.Resp)
+			headCut = n < 0 || n < bytes.Index(raw, []byte("\r\n\r\n"))+4
+		}
+		if res.Err == nil && res.BodyErr == nil && res.Status == rq.Resp.Status && !headCut && !h2NoBody(rq.Method, res.Status) {
 			if !bytes.Equal(res.Body, rq.Resp.Body) {
 				r.Fail("response", "body", "%s: response completed but body differs (%d vs %d bytes)", what, len(res.Body), len(rq.Resp.Body))
 			}
 		}
 		return
+	}
+	// collateral damage: another exchange's upstream connection was reset and fabio had (re)used it for this
+	// request; a request with a body cannot be replayed by the transport, so a gateway error without any
+	// upstream contact is legitimate here, and only here
+	if len(seen) == 0 && res.Err == nil && res.Status >= 500 {
+		for ci := range sc.Clients {
+			for qi := range sc.Clients[ci].Reqs {
+				o := &sc.Clients[ci].Reqs[qi]
+				if o.ID != rq.ID && o.Route == rq.Route && o.Resp.ResetAt != 0 {
+					r.Fault("collateral_of_reset_connection")
+					return
+				}
+			}
+		}
 	}
 	if len(seen) != 1 {
 		r.Fail("request", fmt.Sprintf("seen-%d-times", len(seen)), "%s: the upstream received the request %d times (client: status=%d err=%v)", what, len(seen), res.Status, res.Err)
